@@ -71,6 +71,12 @@ def compare_task(args):
             a.pop("fpos", None)
             b.pop("fpos", None)
             out["n"] += 1
+            if "ok" in a and (b.get("timeout") or b.get("exc") == "RecursionError"):
+                # ((e ~ NEVER) | e) and ((!e ~ NEVER) | e) evaluate e twice; applied to a recursive rule the work doubles at
+                # every level of the input's nesting, and every rewrite adds frames: running out of time or of recursion budget is
+                # not a changed RESULT.  Counted, not judged.
+                out["resource"] = out.get("resource", 0) + 1
+                continue
             if a != b:
                 out["viol"].append({"kind": "rewrite-changed-result", "grammar": name, "mode": mode, "rewrite": desc, "rule": rule, "input": text, "original": a, "rewritten": b})
                 if len(out["viol"]) > 6:
@@ -169,6 +175,8 @@ def run(tier: str) -> int:  # noqa: PLR0912, PLR0915
         if res.get("skip"):
             raise C.MachineryError(res["skip"])
         rep.evaluations += res["n"]
+        if res.get("resource"):
+            rep.extra["rewritten_ran_out_of_time_or_recursion_budget_not_judged"] = rep.extra.get("rewritten_ran_out_of_time_or_recursion_budget_not_judged", 0) + res["resource"]
         rep.traces += 1
         for s in r["steps"]:
             kinds_seen.add(s["kind"])
